@@ -13,14 +13,15 @@ package stateful
 //@   ensures result != nil && fresh(result)
 
 //@ func CreateExecutionState
-//@   props C06
+//@   props C04 C06
 //@   modifies nothing
 //@   ensures result.Funcs != nil && fresh(result.Funcs)
 
 // Per-group copies of an expression get their own execution state (the stateful function
-// instances); only the compiled node evaluator is shared.
+// instances); only the compiled node evaluator is shared. (C04: "a stateful function's result
+// depends only on the earlier points of the same group".)
 //@ func (*expression).CopyReset
-//@   props C06
+//@   props C04 C06
 //@   modifies nothing
 //@   ensures typeis(result, *expression) && as(result, *expression) != nil && fresh(as(result, *expression))
 //@   ensures as(result, *expression).nodeEvaluator == se.nodeEvaluator
